@@ -67,22 +67,28 @@ int ifdef_ignore(AsmContext *asm_context)
 
 int parse_ifdef_ignore(AsmContext *asm_context, int ignore_section)
 {
+  int ret;
+
   if (ignore_section == 1)
   {
-    if (ifdef_ignore(asm_context) == 2)
+    ret = ifdef_ignore(asm_context);
+
+    if (ret == 2)
     {
-      asm_context->assemble();
+      ret = asm_context->assemble();
     }
   }
     else
   {
-    if (asm_context->assemble() == 2)
+    ret = asm_context->assemble();
+
+    if (ret == 2)
     {
-      ifdef_ignore(asm_context);
+      ret = ifdef_ignore(asm_context);
     }
   }
 
-  return 0;
+  return ret == -1 ? -1 : 0;
 }
 
 int parse_ifdef(AsmContext *asm_context, int ifndef)
@@ -114,11 +120,11 @@ int parse_ifdef(AsmContext *asm_context, int ifndef)
     if (ifndef == 0) { ignore_section = 1; }
   }
 
-  parse_ifdef_ignore(asm_context, ignore_section);
+  int ret = parse_ifdef_ignore(asm_context, ignore_section);
 
   asm_context->ifdef_count--;
 
-  return 0;
+  return ret;
 }
 
 int parse_if(AsmContext *asm_context)
@@ -133,17 +139,10 @@ int parse_if(AsmContext *asm_context)
 
   if (num == -1) { return -1; }
 
-  if (num != 0)
-  {
-    parse_ifdef_ignore(asm_context, 0);
-  }
-    else
-  {
-    parse_ifdef_ignore(asm_context, 1);
-  }
+  int ret = parse_ifdef_ignore(asm_context, num != 0 ? 0 : 1);
 
   asm_context->ifdef_count--;
 
-  return 0;
+  return ret;
 }
 
